@@ -17,6 +17,7 @@ import (
 	"github.com/alephium/wormhole-fork/node/pkg/vaa"
 	"github.com/alephium/wormhole-fork/node/verifh/cm"
 	"github.com/alephium/wormhole-fork/node/verifh/ev"
+	"github.com/alephium/wormhole-fork/node/verifh/proch"
 	"github.com/alephium/wormhole-fork/node/verifh/mc"
 	"github.com/ethereum/go-ethereum/crypto"
 )
@@ -288,6 +289,7 @@ func main() {
 	for _, i := range []int{0, len(cases) / 3, len(cases) - 1} {
 		r.Sample(cases[i])
 	}
+	signedByNode()
 	r.Set("evaluations", int(evals))
 	r.Set("distinct_nontrivial", len(cases)-1)
 	r.Set("distinct_bodies", len(bodies))
@@ -296,6 +298,67 @@ func main() {
 	r.Assume("timestamps in [0, 2^32) seconds: the wire field is 32 bits")
 	r.Assume("contract sources are interpreted through a recognised syntactic subset (straight-line parseVM, fixed byteVecSlice! bounds); no solc / Ralph compiler in the sandbox")
 	r.Finish()
+}
+
+// signedByNode: what the real processor SIGNS for a local observation is the double keccak of that
+// observation's own body - whatever the node already holds for the same message id. For every way the store
+// can come to hold a VAA of id I (own quorum / VAA received from a peer / nothing) and every timestamp
+// distance of a second observation of id I, the digest in the node's SignedObservation is compared with the
+// independent body layout, and all (digest, body) pairs the node ever signed are checked for injectivity.
+func signedByNode() {
+	var e vaa.Address
+	e[31] = 0x77
+	offs := []int64{0, -3600, -31, -30, -12, -1, 1, 12, 29, 30, 31, 60, 3600}
+	var msgs []proch.Msg
+	for _, o := range offs {
+		msgs = append(msgs, proch.Msg{Seq: 5, TSOff: o, Payload: []byte{1, 2, 3}, Emitter: e, Chain: 2, Target: 255, CL: 1, Nonce: 9})
+	}
+	msgs = append(msgs, proch.Msg{Seq: 5, TSOff: 12, Payload: []byte{1, 2, 4}, Emitter: e, Chain: 2, Target: 255, CL: 1, Nonce: 9}) // same id, other payload
+	w := proch.NewWorld()
+	c := proch.Config{Name: "digest-of-own-observation", Sets: [][]int{{0}, {0, 1, 2}}, OwnKey: 0, Msgs: msgs}
+	x := &proch.Explorer{R: r, W: w, C: &c, Oracles: map[string]bool{}}
+	prefixes := map[string][]proch.Event{
+		"empty store":                         {{Kind: "set", Set: 0}},
+		"own quorum stored the first VAA":     {{Kind: "set", Set: 0}, {Kind: "msg", M: 0}, {Kind: "lb", LB: 0}},
+		"first VAA received from a peer":      {{Kind: "set", Set: 0}, {Kind: "in", M: 0, InVar: 0, InSet: 0}},
+		"first observation still aggregating": {{Kind: "set", Set: 1}, {Kind: "msg", M: 0}, {Kind: "lb", LB: 0}},
+	}
+	signed := map[string]string{} // digest -> body
+	n := 0
+	for name, pre := range prefixes {
+		for k := range msgs {
+			for _, twice := range []bool{false, true} {
+				n++
+				in := x.Run(pre)
+				hist := append(append([]proch.Event{}, pre...), proch.Event{Kind: "msg", M: k})
+				if twice {
+					hist = append(hist, proch.Event{Kind: "msg", M: k})
+				}
+				var out proch.Out
+				for _, e := range hist[len(pre):] {
+					out = x.StepUnchecked(in, e)
+				}
+				rec := map[string]interface{}{"store": name, "events": fmt.Sprint(hist), "second_observation_ts_offset": msgs[k].TSOff}
+				if out.Panic != nil {
+					r.Violation("node: processor panics on a second observation of a known id", fmt.Sprint(out.Panic), rec)
+				}
+				for _, o := range out.Obs {
+					body := msgs[k].OwnBody()
+					if !bytes.Equal(o.Hash, msgs[k].OwnDigest()) {
+						r.Violation("node: the digest the processor signs is not the double keccak of the observation's own body", fmt.Sprintf("store: %s; second observation %+ds", name, msgs[k].TSOff), rec)
+					}
+					if prev, ok := signed[string(o.Hash)]; ok && prev != string(body) {
+						r.Violation("node: two distinct message bodies were signed under one digest", name, rec)
+					}
+					signed[string(o.Hash)] = string(body)
+				}
+				in.Close()
+			}
+		}
+	}
+	r.Set("node_signing_scenarios", n)
+	r.Set("node_signed_digests", len(signed))
+	r.Add("traces_validated_against_impl", n)
 }
 
 func diffField(got, own []byte) string {
